@@ -17,6 +17,7 @@ def run(rep, tier, seed):
     configs = [
         dict(name="core_fwd", maxinstr=3, maxhist=2, ops="OpsRec", points="PtsP1", seeds="NoSeeds", rec_kinds=("U", "A"), max_replay=mr),
         dict(name="toggle", maxinstr=3, maxhist=1, ops="OpsToggle", points="PtsP1small", seeds="NoSeeds", rec_kinds=("U", "A"), max_replay=mr),
+        dict(name="other_while_recording", maxinstr=3, maxhist=1, ops="OpsOtherRec", points="PtsP1small", seeds="NoSeeds", rec_kinds=("U", "A"), max_replay=mr),
         dict(name="views", maxinstr=3, maxhist=2, ops="OpsA4", points="PtsP1small", seeds="NoSeeds", rec_kinds=("U", "A"), max_replay=mr),
         dict(name="P2", P=2, maxinstr=2, maxhist=2, ops="OpsCore", points="PtsP2", seeds="NoSeeds", max_replay=mr),
     ]
